@@ -259,6 +259,10 @@ func init() {
 	reg(M+".ZeroInt", func(in *Interp, fn *ssa.Function, a []Value, pos token.Pos) Value { return BigInt{Int64(0)} })
 	reg(M+".OneInt", func(in *Interp, fn *ssa.Function, a []Value, pos token.Pos) Value { return BigInt{Int64(1)} })
 	reg(M+".NewIntFromString", func(in *Interp, fn *ssa.Function, a []Value, pos token.Pos) Value {
+		if ss, ok := a[0].(*SymStr); ok && ss.Num != nil {
+			// decimal text of a math.Int: always parses back to the same value
+			return tup(BigInt{ss.Num}, True)
+		}
 		v, ok := new(big.Int).SetString(strOf(in, a[0]), 0)
 		if !ok || new(big.Int).Abs(v).Cmp(int256Limit) >= 0 {
 			return tup(BigInt{}, False)
@@ -317,7 +321,7 @@ func init() {
 		if x.Op == "int" {
 			return x.I.String()
 		}
-		return &SymStr{Desc: "int(" + x.String() + ")"}
+		return &SymStr{Desc: "int(" + x.String() + ")", Num: x}
 	})
 	reg(I+"IsNil", func(in *Interp, fn *ssa.Function, a []Value, pos token.Pos) Value {
 		return BoolConst(a[0].(BigInt).T == nil)
